@@ -195,6 +195,14 @@ def opUpdate (j : Json) : R Json := do
       ("eventTypes", Json.arr (cur.eventTypes.map fun x => jPair x.name (origin (·.eventTypes) x)).toArray),
       ("sources", Json.arr (cur.sources.map fun x => jPair x.name (origin (·.sources) x)).toArray)])
 
+open Edxml.Ont in
+/-- `A == B` for every ordered pair of the given ontologies -/
+def opOntEq (j : Json) : R Json := do
+  let onts ← (← fldArr j "onts").mapM ontologyOf
+  let show_ (x : OntEq) : Json := match x with
+    | .equal => "equal" | .different => "different" | .conflict => "conflict"
+  pure (Json.mkObj [("eq", Json.arr (onts.map fun a => Json.arr (onts.map fun b => show_ (ontEq a b)).toArray).toArray)])
+
 def opXmed (j : Json) : R Json := do
   let ks ← (← fldArr j "kinds").mapM fun k => do
     match ← str k with
@@ -753,6 +761,7 @@ def dispatch (j : Json) : R Json := do
   | "cmp" => opCmp j
   | "track" => opTrack j
   | "update" => opUpdate j
+  | "onteq" => opOntEq j
   | "xmed" => opXmed j
   | "gate" => opGate j
   | "b64" => opB64 j
